@@ -456,7 +456,7 @@ func conclude(prop, tier string, seed int64, meta core.Meta, root string, result
 			os.WriteFile(filepath.Join(root, "evidence", "replay", fmt.Sprintf("%s-watchdog-%s-%d.txt", prop, r.leg, r.shard)), []byte(r.stderr), 0o644)
 		case r.openCase != nil:
 			frame := "?"
-			if m := regexp.MustCompile(`(?m)^(github\.com/zmap/zcrypto[^\s(]*)`).FindStringSubmatch(r.stderr); m != nil {
+			if m := regexp.MustCompile(`(?m)^(github\.com/zmap/zcrypto\S*)\(`).FindStringSubmatch(r.stderr); m != nil {
 				frame = strings.TrimPrefix(m[1], "github.com/zmap/zcrypto/")
 			}
 			fk := regexp.MustCompile(`\b(0x[0-9a-fA-F]+|\d+)\b`).ReplaceAllString(fatal, "N")
